@@ -11,7 +11,7 @@ sys.path.insert(0, "/verif")
 os.environ.setdefault("VX_NCPU", "4")
 from vx import mutants  # noqa
 
-ALSO = {"C10-1b": ["C11"], "C10-1c": ["C11"], "C08-2b": ["C11", "C10"], "C06-2c": ["C12"], "C01-2d": ["C03"], "C03-1f": ["C01"], "C16-1f": ["C11", "C08"], "C04-2g": ["C07", "C06"]}
+ALSO = {"C10-1b": ["C11"], "C10-1c": ["C11"], "C08-2b": ["C11", "C10"], "C06-2c": ["C12"], "C01-2d": ["C03"], "C03-1f": ["C01"], "C16-1f": ["C11", "C08"], "C04-2g": ["C07", "C06"], "C04-1h": ["C11"], "C15-1h": ["C04", "C09"]}
 
 
 def one(item):
